@@ -313,7 +313,10 @@ def gen_c20(seed, cfg=None):  # noqa: C901, PLR0912
         elif r < 0.28 and call_ops:
             # the client overwrites whatever it can reach from the exceptions earlier calls raised
             op = {"op": "scramble_exc"}
-        elif r < 0.40:
+        elif r < 0.36 and call_ops:
+            # the same call once more (the property quantifies over pairs of successive calls with equal arguments)
+            op = dict(prog[rng.choice(call_ops)])
+        elif r < 0.46:
             c = rng.choice(C20_CONV)
             if rng.random() < 0.3:
                 op = {"op": "get_converter", "h": 1, "conv": c}
@@ -326,7 +329,7 @@ def gen_c20(seed, cfg=None):  # noqa: C901, PLR0912
                                         "CDq": ["const_factory_dq"]}[c])
                 if rng.random() < 0.5:
                     op["rcp_shared"] = True
-        elif r < 0.48 and callables:
+        elif r < 0.53 and callables:
             j = rng.randrange(len(callables))
             k, ct = callables[j]
             if k == "get_loader":
